@@ -96,7 +96,44 @@ def acse_roles_check():
     return None
 
 
+def no_usable_context_check():
+    """native, over 127.0.0.1: a requestor whose every proposed context is refused by the acceptor aborts the association it was
+    just granted - the A-ABORT goes out, the connection is closed and EVT_CONN_CLOSE is notified exactly once on its side"""
+    import time
+    from pynetdicom import AE, evt
+    from pynetdicom.pdu import A_ABORT_RQ
+    scp = AE()
+    scp.add_supported_context("1.2.840.10008.1.1")
+    srv = scp.start_server(("127.0.0.1", 0), block=False)
+    seen = []
+    try:
+        scu = AE()
+        scu.acse_timeout = scu.dimse_timeout = scu.network_timeout = 10
+        scu.add_requested_context("1.2.840.10008.5.1.4.1.1.2")
+        hs = [(evt.EVT_CONN_OPEN, lambda e: seen.append("CONN_OPEN")), (evt.EVT_CONN_CLOSE, lambda e: seen.append("CONN_CLOSE")),
+              (evt.EVT_ABORTED, lambda e: seen.append("ABORTED")),
+              (evt.EVT_PDU_SENT, lambda e: seen.append("SENT:" + type(e.pdu).__name__))]
+        assoc = scu.associate("127.0.0.1", srv.socket.getsockname()[1], evt_handlers=hs)
+        t0 = time.time()
+        while assoc.dul.is_alive() and time.time() - t0 < 5:
+            time.sleep(0.05)
+        got = {"aborted": assoc.is_aborted, "established": assoc.is_established, "A-ABORT PDUs sent": seen.count("SENT:A_ABORT_RQ"),
+               "EVT_CONN_CLOSE": seen.count("CONN_CLOSE"), "EVT_ABORTED": seen.count("ABORTED"), "state": assoc.dul.state_machine.current_state}
+    finally:
+        srv.shutdown()
+    want = {"aborted": True, "established": False, "A-ABORT PDUs sent": 1, "EVT_CONN_CLOSE": 1, "EVT_ABORTED": 1, "state": "Sta1"}
+    if got != want:
+        return dict(input="requestor proposes only CT Image Storage, the acceptor supports only Verification", observed=got, expected=want)
+    return None
+
+
 _rec = load() if len(sys.argv) > 1 else {"id": ""}
+if "no-accepted-context" in _rec.get("id", "") or _rec.get("id", "").endswith("cross-check"):
+    _bad = no_usable_context_check()
+    if _bad:
+        done(True, **_bad)
+    if "no-accepted-context" in _rec.get("id", ""):
+        done(False, note="the real requestor aborted, sent the A-ABORT and closed the connection, EVT_CONN_CLOSE once")
 if "_negotiate_as_requestor" in _rec.get("id", "") or _rec.get("id", "").endswith("cross-check"):
     _bad = acse_roles_check()
     if _bad:
